@@ -16,6 +16,10 @@ from numbers import Integral
 import networkx
 
 from cnfgen.localtypes import positive_int, non_negative_int
+# (numbers and blanks in graph files are the ones of DIMACS files:
+# python's `int` and `split` also take '1_0', non ASCII digits and
+# separators like U+001C or U+2028)
+from cnfgen.utils.parsedimacs import dimacs_int, dimacs_fields, DIMACS_BLANKS
 
 __all__ = [
     "readGraph", "writeGraph",
@@ -1244,7 +1248,7 @@ def _kthlist_parse(inputfile):
             continue
 
         # empty line
-        if len(l.strip()) == 0:
+        if len(l.strip(DIMACS_BLANKS)) == 0:
             continue
 
         if ':' not in l:
@@ -1253,7 +1257,7 @@ def _kthlist_parse(inputfile):
                 raise ValueError(
                     "Line {} contains a second spec directive.".format(i))
             try:
-                size = int(l.strip())
+                size = dimacs_int(l.strip(DIMACS_BLANKS))
                 if size < 0:
                     raise ValueError
             except ValueError:
@@ -1265,8 +1269,8 @@ def _kthlist_parse(inputfile):
         # Load edges from this line
         left, right = l.split(':')
         try:
-            left = int(left.strip())
-            right = [int(s) for s in right.split()]
+            left = dimacs_int(left.strip(DIMACS_BLANKS))
+            right = [dimacs_int(s) for s in dimacs_fields(right)]
         except ValueError:
             raise ValueError("Non integer vertex ID at line {}.".format(i))
         if len(right) < 1 or right[-1] != 0:
@@ -1427,7 +1431,7 @@ def _read_graph_dimacs_format(inputfile, graph_class):
     # is the input topologically sorted?
     for i, l in enumerate(_text_lines(inputfile)):
 
-        l = l.strip()
+        l = l.strip(DIMACS_BLANKS)
 
         # empty line
         if len(l) == 0:
@@ -1444,12 +1448,12 @@ def _read_graph_dimacs_format(inputfile, graph_class):
                 raise ValueError(
                     "[Syntax error] " +
                     "Line {} contains a second spec line.".format(i+1))
-            _, fmt, nstr, mstr = l.split()
-            if fmt != 'edge':
+            p, fmt, nstr, mstr = dimacs_fields(l)
+            if p != 'p' or fmt != 'edge':
                 raise ValueError("[Input error] " +
                                  "Dimacs \'edge\' format expected at line {}.".format(i+1))
-            n = int(nstr)
-            m = int(mstr)
+            n = dimacs_int(nstr)
+            m = dimacs_int(mstr)
             G = graph_class(n, name)
             continue
 
@@ -1459,9 +1463,11 @@ def _read_graph_dimacs_format(inputfile, graph_class):
                 raise ValueError("[Input error] " +
                                  "Edge before preamble at line".format(i))
             m_cnt += 1
-            _, v, w = l.split()
             try:
-                G.add_edge(int(v), int(w))
+                e, v, w = dimacs_fields(l)
+                if e != 'e':
+                    raise ValueError
+                G.add_edge(dimacs_int(v), dimacs_int(w))
             except ValueError:
                 raise ValueError("[Syntax error] " +
                                  "Line {} syntax error: edge must be 'e u v' where u, v are vertices".format(i))
@@ -1515,13 +1521,14 @@ def _read_graph_matrix_format(inputfile):
                     return
 
                 line_cnt += 1
-                tokens = line.split()
+                tokens = dimacs_fields(line)
 
                 if len(tokens) == 0 or tokens[0][0] == '#':
                     continue  # comment line
 
                 try:
-                    num_buffer.extend((int(lit), line_cnt) for lit in tokens)
+                    num_buffer.extend((dimacs_int(lit), line_cnt)
+                                      for lit in tokens)
                 except ValueError:
                     raise ValueError("[Syntax error] " +
                                      "Line {} contains a non numeric entry.".
